@@ -288,3 +288,251 @@ def check_label_copy(ctx: Context, rep, rule: str) -> None:
         rep.ob(rule, ok, loc=we.loc(a), where=we.qualname, construct=short(a, 90),
                message="stored label == caller's label (deepcopy), so equal "
                "labels compare equal at the next write")
+
+
+# ---------------------------------------------------------------------------
+# Lower bounds of small integer expressions (for "this buffer is never empty")
+POSITIVE_PARAMS = {"file_parallelism": 1}   # reader count: meaningful only >= 1
+
+
+def lower_bound(fn: FunctionInfo, e: ast.AST, depth: int = 0):
+    """A lower bound of the integer expression `e` (None: unknown), with
+    single-definition locals expanded and the parameters of POSITIVE_PARAMS
+    at their minimum."""
+    from sa import norm
+    if depth == 0:
+        e = norm.expand(fn, e)
+    if isinstance(e, ast.Constant) and type(e.value) is int:
+        return e.value
+    if isinstance(e, ast.Name):
+        return POSITIVE_PARAMS.get(e.id)
+    if isinstance(e, ast.Call) and isinstance(e.func, ast.Name) and \
+            not e.keywords and e.args:
+        lbs = [lower_bound(fn, a, depth + 1) for a in e.args]
+        if e.func.id == "max" and len(e.args) >= 2:
+            known = [b for b in lbs if b is not None]
+            return max(known) if known else None
+        if e.func.id == "min" and len(e.args) >= 2:
+            return None if None in lbs else min(lbs)
+        if e.func.id == "len":
+            return 0
+        if e.func.id == "int" and len(e.args) == 1:
+            return lbs[0]
+    if isinstance(e, ast.BoolOp) and isinstance(e.op, ast.Or):
+        # `x or k`: x when truthy (non-zero), else k
+        lbs = [lower_bound(fn, v, depth + 1) for v in e.values]
+        if None in lbs:
+            return lbs[-1] if lbs[-1] is not None and lbs[-1] >= 1 and all(
+                b is None or b >= 0 for b in lbs) else None
+        return min(max(b, 1) if i < len(lbs) - 1 else b
+                   for i, b in enumerate(lbs)) if all(
+                       b >= 0 for b in lbs) else min(lbs)
+    if isinstance(e, ast.BinOp):
+        a = lower_bound(fn, e.left, depth + 1)
+        b = lower_bound(fn, e.right, depth + 1)
+        if isinstance(e.op, ast.Add) and a is not None and b is not None:
+            return a + b
+        if isinstance(e.op, ast.Mult) and a is not None and b is not None \
+                and a >= 0 and b >= 0:
+            return a * b
+        if isinstance(e.op, ast.Sub) and a is not None and isinstance(
+                e.right, ast.Constant) and type(e.right.value) is int:
+            return a - e.right.value
+        if isinstance(e.op, (ast.FloorDiv, ast.RShift)) and a is not None \
+                and isinstance(e.right, ast.Constant) and \
+                type(e.right.value) is int and e.right.value > 0 and a >= 0:
+            return a // e.right.value if isinstance(e.op, ast.FloorDiv) \
+                else a >> e.right.value
+    if isinstance(e, ast.IfExp):
+        a = lower_bound(fn, e.body, depth + 1)
+        b = lower_bound(fn, e.orelse, depth + 1)
+        return None if a is None or b is None else min(a, b)
+    return None
+
+
+def check_interleave_nonempty(ctx: Context, rep, rule: str) -> None:
+    """round_robin[_async] with an empty buffer yields nothing at all (its
+    `while buffer` loop never runs and the source is never pulled): every
+    call site passes a buffer size whose lower bound is >= 1."""
+    rep.rule(
+        rule,
+        "every call of round_robin / round_robin_async passes a buffer size "
+        "with lower bound >= 1 (constants, max/min, +, *, //, `or`, "
+        "file_parallelism >= 1 evaluated as an interval lower bound): with "
+        "an empty buffer the interleaving yields nothing and drops the pass")
+    n = 0
+    for fn in ctx.repo.all_functions():
+        for c in fn.calls():
+            if not ctx.is_call(fn, c, "itertools.round_robin",
+                               "itertools.round_robin_async"):
+                continue
+            a = ctx.arg(c, 1, "buffer_size")
+            n += 1
+            if a is None:
+                continue   # the callee's default (a positive constant)
+            lb = lower_bound(fn, a)
+            if lb is None:
+                rep.info(rule, f"{fn.loc(c)}: buffer size {short(a, 40)} has "
+                         "no static lower bound (not decided)")
+                continue
+            rep.ob(rule, lb >= 1, loc=fn.loc(c), where=fn.qualname,
+                   construct=f"round_robin(buffer_size={short(a, 40)})",
+                   message=f"buffer size may be {lb}: the interleaving would "
+                   "yield nothing")
+    rep.floor(rule, n, 2, "round_robin call sites")
+
+
+# ---------------------------------------------------------------------------
+# One-shot iterators are consumed once
+LAZY_MAKERS = {"filter", "map", "zip", "iter", "reversed", "enumerate"}
+EXHAUSTERS = {"list", "set", "tuple", "sorted", "sum", "dict", "frozenset",
+              "max", "min", "any", "all", "len", "Counter", "deque"}
+
+
+def one_shot_reuse(ctx: Context, fn: FunctionInfo) -> list[tuple]:
+    """(first consumer, later consumer, name) for every single-definition
+    local bound to a one-shot iterator (filter/map/zip/iter/... or a generator
+    expression) that is exhausted (list(), set(), comprehension, sorted, ...)
+    and then consumed again on some path."""
+    from sa.model import parent as _parent
+    from sa.valuation import single_defs
+    defs = single_defs(fn)
+    lazy = {}
+    for name, val in defs.items():
+        if isinstance(val, ast.GeneratorExp) or (
+                isinstance(val, ast.Call) and isinstance(val.func, ast.Name)
+                and val.func.id in LAZY_MAKERS):
+            lazy[name] = val
+    if not lazy:
+        return []
+    cfg = ctx.cfg(fn)
+
+    def node_of(e):
+        best = None
+        for n in cfg.nodes:
+            if n.ast is not None and n.kind in ("stmt", "test", "call") and any(
+                    x is e for x in ast.walk(n.ast)):
+                if best is None or sum(1 for _ in ast.walk(n.ast)) < sum(
+                        1 for _ in ast.walk(best.ast)):
+                    best = n
+        return best
+
+    out = []
+    for name in lazy:
+        uses = []   # (node, exhausting?, expr)
+        for x in fn.body_nodes():
+            if not (isinstance(x, ast.Name) and x.id == name and
+                    isinstance(x.ctx, ast.Load)):
+                continue
+            p = _parent(x)
+            kind = None
+            if isinstance(p, ast.Call) and x in p.args and isinstance(
+                    p.func, ast.Name):
+                if p.func.id in EXHAUSTERS:
+                    kind = "exhaust"
+                elif p.func.id == "next":
+                    kind = None          # explicit pull protocol
+                elif p.func.id in LAZY_MAKERS:
+                    kind = None          # wrapped, still lazy (not tracked)
+                else:
+                    kind = "partial"
+            elif isinstance(p, ast.comprehension) and p.iter is x:
+                gp = _parent(p)
+                kind = "partial" if isinstance(gp, ast.GeneratorExp) else \
+                    "exhaust"
+            elif isinstance(p, (ast.For, ast.AsyncFor)) and p.iter is x:
+                has_break = any(isinstance(b, (ast.Break, ast.Return))
+                                for s in p.body for b in ast.walk(s))
+                kind = "partial" if has_break else "exhaust"
+            elif isinstance(p, (ast.YieldFrom, ast.Starred)):
+                kind = "exhaust"
+            if kind is None:
+                continue
+            n = node_of(x)
+            if n is not None:
+                uses.append((n, kind, x))
+        for n1, k1, x1 in uses:
+            if k1 != "exhaust":
+                continue
+            after = cfg.reachable([n1], strict=True,
+                                  follow=lambda a, b, lab: lab != "exc")
+            for n2, _k2, x2 in uses:
+                if x2 is not x1 and n2 is not n1 and n2 in after:
+                    out.append((x1, x2, name))
+    return out
+
+
+def check_one_shot(ctx: Context, rep, rule: str, modules: tuple[str, ...]) -> None:
+    rep.rule(
+        rule,
+        "a local bound to a one-shot iterator (filter / map / zip / iter / "
+        "generator expression) is not consumed again after something "
+        "exhausted it (list, set, sorted, a comprehension, a for loop "
+        "without break): the later consumer would see an empty stream")
+    n = 0
+    for fn in ctx.repo.all_functions():
+        if not fn.module.name.startswith(modules) or isinstance(
+                fn.node, ast.Lambda):
+            continue
+        n += 1
+        for x1, x2, name in one_shot_reuse(ctx, fn):
+            rep.ob(rule, False, loc=fn.loc(x2), where=fn.qualname,
+                   construct=f"`{name}` exhausted at L{x1.lineno}, consumed "
+                   f"again at L{x2.lineno}",
+                   message="one-shot iterator consumed twice on one path")
+    rep.ob(rule, n > 0, loc="src/sedpack/io/dataset_iteration.py:1",
+           where="sedpack.io", construct=f"{n} function(s) scanned",
+           message="functions scanned for one-shot iterator reuse")
+
+
+# ---------------------------------------------------------------------------
+def check_exit_publishes(ctx: Context, rep, rule: str) -> None:
+    """DatasetFiller.__exit__ closes the open shards, writes the lists and
+    (auto-update) publishes them into the dataset whether or not the block
+    raised: what was accepted before an exception stays reachable."""
+    rep.rule(
+        rule,
+        "DatasetFiller.__exit__: with auto-update on, every normal path to "
+        "the exit passes the calls reaching close_shard (inside the loop over "
+        "open shards), ShardsList.write_config and Dataset.write_config, "
+        "for exc_type None AND for exc_type set (CFG specialised on both)")
+    DFm = "sedpack.io.dataset_filler"
+    ex = ctx.fn(f"{DFm}:DatasetFiller.__exit__")
+    exc_param = [a.arg for a in ex.node.args.args][1] if len(
+        ex.node.args.args) > 1 else "exc_type"
+    for label, val in (("no exception", None), ("block raised", TRUTHY)):
+        cfg = CFG(ex, env={"self._auto_update_dataset": True,
+                           exc_param: val})
+        follow = lambda a, b, lab: lab not in ("exc", "raise")  # noqa: E731
+        pub = cfg.calls(lambda c: any(
+            t.qualname.endswith("write_config") and
+            t.module.name.endswith(("dataset_writing", "dataset"))
+            for t in ctx.internal_targets(ex, c)) or (
+                isinstance(c.func, ast.Attribute) and
+                c.func.attr == "write_config" and
+                (dotted(c.func.value) or "").endswith("_dataset")))
+        lists = cfg.calls(lambda c: isinstance(c.func, ast.Attribute) and
+                          c.func.attr == "write_config" and c not in
+                          [p.ast for p in pub])
+        for what, sites in (("Dataset.write_config", pub),
+                            ("ShardsList.write_config", lists)):
+            if what.startswith("Shards"):
+                # sits in a comprehension / loop over the lists: present and
+                # its statement on every path
+                heads = [n for n in cfg.nodes if n.kind == "for" and
+                         n.ast is not None and any(
+                             x is s.ast for s in sites for x in ast.walk(n.ast))]
+                blockers = heads or sites
+            else:
+                blockers = sites
+            skipped = (not blockers) or cfg.exit in cfg.reachable(
+                [cfg.entry], avoiding=blockers, follow=follow)
+            rep.ob(rule, not skipped, loc=ex.loc(blockers[0].ast)
+                   if blockers else ex.loc(), where=ex.qualname,
+                   construct=f"{label}: {what} on every path",
+                   message="leaving the filler publishes what was written, "
+                   "also when the block raised (accepted examples must not be "
+                   "lost with a rejected one)",
+                   path=cfg.describe_path(cfg.path_to(cfg.exit,
+                                                      avoiding=blockers))
+                   if skipped and blockers else "")
